@@ -43,7 +43,7 @@ MANIFEST = dict(
          'container and layout with LZMA as an inverse pair (header, 64-row table in standard and L4D2 field order, revision, '
          'payload placement in write order, game-lump directory with absolute offsets, NUL separators and the dummy entry); '
          'four wf conditions shown necessary. order_consistent bsp_graph, shape_ok bsp_shape, layout_ok bsp_layout, '
-         'bsp_layout = std_layout and 21 further named obligations are re-derived from bsp.py and kernel-checked on every run.',
+         'bsp_layout = std_layout and 23 further named obligations are re-derived from bsp.py and kernel-checked on every run.',
     note='Assumed in the theorems (visible hypotheses): each lump writer inverts its reader on the file\'s lumps (codec_ok, '
          'wr_len_ok: property C11); decompress (compress d) = d (CPython lzma). The container theorem is about the model '
          'Fmt/BspContainer.v, tied to BSP.read/BSP.save by byte-exact correspondence on random containers (not by a translator of '
@@ -63,6 +63,11 @@ MANIFEST = dict(
          'on the translated store lists), harness/c10_util.py, CPython lzma/zipfile.',
 )
 
+# (reader, view) pairs where the reader changes, in place, objects it reaches through another view; each was reviewed:
+# bmodels takes the "model" key out of the brush entities of ents (its writer, which precedes the ents writer in the rebuild
+# order, puts it back; since fix 61823d3 only after every reference was resolved, so a look that raises leaves them alone);
+# faces / hdr_faces set texinfo and hammer_id of the orig_faces objects (the ORIGINALFACES reader ignores both fields)
+REVIEWED_ELEMENT_MUTATIONS = [('bmodels', 'ents'), ('faces', 'orig_faces'), ('hdr_faces', 'orig_faces')]
 IMPORTS = ['SV.SM.LazyLumps', 'SV.SM.LazyLumpsProofs', 'SV.Fmt.BspContainer', 'SV.Gen.BspGraph_gen', 'Coq.Strings.String', 'Coq.Lists.List', 'Coq.Arith.Arith', 'Coq.Bool.Bool']
 VIEWS = ['pakfile', 'ents', 'textures', 'texinfo', 'cubemaps', 'overlays', 'bmodels', 'brushes', 'visleafs',
          'water_leaf_info', 'nodes', 'visibility', 'vertexes', 'surfedges', 'planes', 'faces', 'orig_faces', 'hdr_faces',
@@ -396,6 +401,7 @@ BAD_VARIANTS: list[dict] = [
     dict(bad=('sprp_version',)), dict(bad=('sprp_size',)), dict(bad=('ents',)), dict(bad=('texinfo',)),
     dict(bad=('sprp_version',), compress_game=('sprp',)), dict(bad=('ents', 'dprp'), compress=('ENTITIES',), compress_game=('dprp',)),
     dict(bad=('overlays', 'sprp_size'), layout='v21', compress=('OVERLAYS',)), dict(bad=('texinfo', 'ents'), layout='l4d2'),
+    dict(bad=('bmodel_ref',)),
 ]
 
 
@@ -806,8 +812,8 @@ def run(ck: Ck) -> None:
                'BRUSHSIDES, TEXDATA, TEXDATA_STRING_TABLE) at the values where they look unused: all zero, the reader\'s defaults '
                'for an absent lump, first record zero, all bits set, optional side lumps absent); histories: '
                'no access, every single view, every ordered pair on the default file, random subsets and orders, all views '
-               'forwards/backwards, 1-3 look/save cycles; 8 malformed inputs (unknown static-prop version, stray bytes in the prop '
-               'lump, unterminated entity, texinfo naming a missing texdata, truncated detail props / overlays, also LZMA-compressed) '
+               'forwards/backwards, 1-3 look/save cycles; 9 malformed inputs (unknown static-prop version, stray bytes in the prop '
+               'lump, unterminated entity, entity naming a missing brush model, texinfo naming a missing texdata, truncated detail props / overlays, also LZMA-compressed) '
                'whose failing views are looked at inside try/except before saving; random small containers for the container '
                'model; a case is non-trivial when at least one view is looked at; distinct by (input, access cycles)')
     ck.trusted.append('hand-written models SM/LazyLumps.v (tied by traced correspondence on every run, including looks that raise) '
@@ -830,6 +836,10 @@ def run(ck: Ck) -> None:
     if built:
         ck.theorems('Props/C10.v')
         n = 'length bsp_graph'
+        vpos = {v: i for i, v in enumerate(side['view_at']) if v}
+        reviewed = sorted((vpos[a], vpos[b]) for a, b in REVIEWED_ELEMENT_MUTATIONS if a in vpos and b in vpos)
+        reviewed_coq = '(' + ' :: '.join([f'({a}, {b})' for a, b in reviewed] + ['nil']) + ')'
+        pair_eqb = '(fun p q => Nat.eqb (fst p) (fst q) && Nat.eqb (snd p) (snd q))'
         inst = ck.instance_obligations(IMPORTS, {
             'order_consistent_bsp_graph': 'order_consistent bsp_graph',
             'every_dependency_later_in_rebuild_order': f'forallb (deps_later bsp_graph) (seq 0 ({n}))',
@@ -867,6 +877,11 @@ def run(ck: Ck) -> None:
             'container_layout_ok': 'layout_ok bsp_layout',
             'container_struct_formats_as_modelled': 'list_eqb String.eqb bsp_container_formats '
                                                     '("<4si" :: "<4i" :: "<i" :: "<4s HH ii" :: nil)%string',
+            # objects reached through another view (entities of ents, faces of orig_faces) changed in place: only the reviewed
+            # (reader, view) pairs; any other hidden mutation of a cached view is outside the model
+            'readers_change_objects_of_other_views_only_where_reviewed':
+                f'forallb (fun p => existsb ({pair_eqb} p) {reviewed_coq}) bsp_reader_elem_mutations',
+            'writers_change_no_objects_of_other_views': 'match bsp_writer_elem_mutations with nil => true | _ => false end',
             'readers_only_read_the_views_they_look_at': 'forallb (fun u => Nat.eqb (snd u) 0) bsp_reader_uses',
             'writers_only_read_or_append_to_the_views_they_look_at': 'forallb (fun u => Nat.leb (snd u) 1) bsp_writer_uses',
         })
@@ -1005,9 +1020,9 @@ def run(ck: Ck) -> None:
             rng.shuffle(cyc[0])
             attempt(s, opts, cyc)
     for k, (a, b) in enumerate(itertools.permutations(VIEWS, 2)):
-        if (a < b and k % 4 == 0) or ck.budget(0, 1):
+        if (a < b and k % 5 == 0) or ck.budget(0, 1):
             attempt(default, synth_subjects[1][0], [[a, b]])
-    nrand = ck.budget(48, 3000)
+    nrand = ck.budget(32, 3000)
     for i in range(nrand):
         opts, s = synth_subjects[rng.randrange(len(synth_subjects))]
         ncyc = rng.choice([1, 1, 1, 2, 3])
@@ -1019,10 +1034,10 @@ def run(ck: Ck) -> None:
     t0 = time.time()
     for subj in subjects:       # the sample map (large entity lump: fewer trials)
         attempt(subj, None, [[]])
-        for v in (VIEWS if ck.budget(0, 1) else rng.sample(VIEWS, 7)):
+        for v in (VIEWS if ck.budget(0, 1) else rng.sample(VIEWS, 4)):
             attempt(subj, None, [[v]])
         attempt(subj, None, [list(VIEWS)])
-        for i in range(ck.budget(2, 60)):
+        for i in range(ck.budget(1, 60)):
             attempt(subj, None, [rng.sample(VIEWS, rng.choice([2, 3, 6, 12])) for _ in range(rng.choice([1, 2]))])
     tm['search_sample_map'] = round(time.time() - t0, 1)
     ck.sample({'input': default.desc, 'cycles': [['faces', 'ents'], ['bmodels']],
@@ -1041,6 +1056,14 @@ def run(ck: Ck) -> None:
         # outside the shapes the model was validated for (its abstraction of "the reader raises" is not data-exact there):
         # the concrete findings above are the explanation
         ck.explain('correspondence:get-save-model')
+    if any(inst.get(nm) is False for nm in ('order_consistent_bsp_graph', 'every_cleared_lump_stored_by_its_writer',
+                                            'cleared_lumps_are_never_stored_conditionally')) \
+            and any(f['kind'].split(':')[0] in ('view-content-changed', 'raw-changed', 'cache-not-empty-after-save')
+                    for f in found.values()):
+        # the model stores every lump of v_wstore when a writer runs; a writer that skips the store of a cleared lump (or a graph
+        # that is not order-consistent) is outside it, the traced runs disagree about the lumps left empty after save, and the
+        # concrete histories above show the loss
+        ck.explain('correspondence:get-save-model')
     for key, f in found.items():
         ck.violation(key, f'{f["kind"]}: {f["detail"]}', {k: v for k, v in f.items() if k != 'n'})
     ck.extra['violation_keys'] = sorted(found)
@@ -1056,6 +1079,7 @@ def run(ck: Ck) -> None:
                    'no_reader_looks_at_its_own_view', 'every_cleared_lump_stored_by_its_writer', 'no_lump_owned_twice',
                    'every_view_in_rebuild_order', 'no_two_views_share_a_main_lump', 'raw_reads_own_or_unowned',
                    'stores_go_to_owned_lumps', 'conditional_stores_only_FACEIDS_unowned', 'stores_outside_the_view_go_to_unowned_lumps',
+                   'readers_change_objects_of_other_views_only_where_reviewed', 'writers_change_no_objects_of_other_views',
                    'cleared_lumps_are_never_stored_conditionally'):
             if inst.get(nm) is False:
                 ck.explain('instance:' + nm)
